@@ -1,5 +1,5 @@
 (* C10 - SemVer comparison is SemVer 2.0.0 precedence (Spec/SemVerSpec.v: section 11 clause by clause). *)
-From ZV Require Import Str SemVer SemVerSpec SemVerProofs.
+From ZV Require Import Str SemVer SemVerSpec SemVerProofs Convert Findings.
 
 Theorem c10_lt_agrees : forall a b, semver_cmp a b = Lt <-> sv_lt a b.
 Proof. exact semver_cmp_lt. Qed.
@@ -47,6 +47,14 @@ Example c10_ex :
   semver_cmp (v (Some [IStr [97]; IStr [98]])) (v (Some [IStr [114]; IUInt 1])) = Lt /\
   semver_cmp (v (Some [IStr [114]; IUInt 1])) (v None) = Lt.
 Proof. vm_compute. repeat split. Qed.
+
+(* KNOWN FINDING of this property, as the model exhibits it (the check prints KNOWN-FINDING for the class; see known_findings.json) *)
+Example c10_finding_c10_oversize_identifiers :
+match semver_parse [49;46;48;46;48;45;49;56;52;52;54;55;52;52;48;55;51;55;48;57;53;53;49;54;49;54]%N, semver_parse [49;46;48;46;48;45;49;48;48;48;48;48;48;48;48;48;48;48;48;48;48;48;48;48;48;48;48]%N with
+  | Some a, Some b => semver_cmp a b = Gt
+  | _, _ => False
+  end.
+Proof. exact finding_c10_oversize_identifiers. Qed.
 
 Print Assumptions c10_lt_agrees.
 Print Assumptions c10_gt_agrees.
